@@ -75,7 +75,8 @@ def run(R):
     exe = R.cc("mt_workload", ["mt_workload.c"], "tsan")
     reports = 0
     mtfiles = []
-    runs = [(8, 3, "default"), (8, 3, "internal"), (2, 4, "default"), (16, 2, "default"), (8, 2, "default-closed"), (12, 2, "default-closed")]
+    runs = [(8, 3, "default"), (8, 3, "internal"), (2, 4, "default"), (16, 2, "default"), (8, 2, "default-closed"), (12, 2, "default-closed"),
+            (8, 2, "default-fallback"), (16, 1, "default-fallback")]      # getrandom() unavailable: every thread served from the shared /dev/urandom descriptor
     if thorough:
         runs += [(16, 6, "internal"), (4, 10, "default"), (12, 5, "default"), (3, 10, "internal")]
     for i, (n, it, rng) in enumerate(runs):
@@ -97,7 +98,13 @@ def run(R):
             reports += 1
             R.violation("ThreadSanitizer: data race in %s (random source: %s, %d threads)" % (" / ".join("%s %s:%s" % k for k in key), rng, n),
                         {"rng": rng, "threads": n, "report": b[:3000]}, name="race")
-        bad = [x for x in vlib.read_ndjson(out) if x["equal"] != x["iters"]]
+        recs = list(vlib.read_ndjson(out))
+        for x in [x for x in recs if x.get("e") == "mtrand"]:
+            if not x["getrandom_denied"]:
+                R.notes.append("the seccomp filter that hides getrandom() could not be installed here: the fallback run used the ordinary path")
+            if x["repeated"] or x["all_zero"]:
+                R.violation("default generator (urandom fallback) under %d threads: %d of %d 16-byte blocks handed out more than once, %d all-zero" % (n, x["repeated"], x["blocks"], x["all_zero"]), x, name="mtrand")
+        bad = [x for x in recs if x.get("e") == "mt" and x["equal"] != x["iters"]]
         for b in bad[:3]:
             R.violation("result under concurrency differs from the sequential run: %s" % json.dumps(b), b, name="mtdiff")
         mtfiles.append(out)
